@@ -11,7 +11,7 @@ import ast
 
 from .. import regexast
 from ..astutil import (
-    body_raises, call_simple_name, conjuncts, dotted, exc_name, guard_chain, if_raising, names_in, returns_of, short,
+    body_raises, call_simple_name, conjuncts, dotted, exc_name, guard_chain, if_raising, names_in, pm, pmall, returns_of, short,
 )
 from ..cfg import ReachingDefs, call_name, cfg_of, calls_at, node_calls, own_exprs
 from ..constraints import summarize
@@ -912,7 +912,7 @@ def rule_regexes(ctx):
     # vocabulary names of both versions are inferable to Hash members (so their values are checked)
     inf = prog.func("stix2.hashes::infer_hash_algorithm")
     itxt = norm(inf.node)
-    if "name.replace('-', '').upper()" not in itxt or "Hash[enum_name]" not in itxt:
+    if pmall(itxt, "$e = %s.replace('-', '').upper()" % inf.params[0], "Hash[$e]") is None:
         raise AnalysisError("infer_hash_algorithm changed shape; update C02.hash-regex normalisation")
     for ver, modname in (("2.0", "stix2.v20.vocab"), ("2.1", "stix2.v21.vocab")):
         vm = prog.module(modname)
